@@ -23,7 +23,7 @@ macro_rules! code_table {
     };
 }
 
-//@ id=table.v5.ConnectReasonCode props=C01,C04,C10,C11,C20 kind=complete tier=quick
+//@ id=table.v5.ConnectReasonCode props=C01,C03,C04,C06,C10,C11,C12,C20 kind=complete tier=quick
 code_table!(k_tbl_connect_reason, v5::ConnectReasonCode, v5::ConnectReasonCode::from_u8, "v5.ConnectReasonCode", [
     Success = 0x00, UnspecifiedError = 0x80, MalformedPacket = 0x81, ProtocolError = 0x82,
     ImplementationSpecificError = 0x83, UnsupportedProtocolVersion = 0x84, ClientIdentifierNotValid = 0x85,
@@ -33,7 +33,7 @@ code_table!(k_tbl_connect_reason, v5::ConnectReasonCode, v5::ConnectReasonCode::
     ServerMoved = 0x9D, ConnectionRateExceeded = 0x9F,
 ]);
 
-//@ id=table.v5.DisconnectReasonCode props=C01,C04,C10,C11,C20 kind=complete tier=quick
+//@ id=table.v5.DisconnectReasonCode props=C01,C03,C04,C06,C10,C11,C12,C20 kind=complete tier=quick
 code_table!(k_tbl_disconnect_reason, v5::DisconnectReasonCode, v5::DisconnectReasonCode::from_u8, "v5.DisconnectReasonCode", [
     NormalDisconnect = 0x00, DisconnectWithWillMessage = 0x04, UnspecifiedError = 0x80, MalformedPacket = 0x81,
     ProtocolError = 0x82, ImplementationSpecificError = 0x83, NotAuthorized = 0x87, ServerBusy = 0x89,
@@ -45,36 +45,36 @@ code_table!(k_tbl_disconnect_reason, v5::DisconnectReasonCode, v5::DisconnectRea
     SubscriptionIdentifiersNotSupported = 0xA1, WildcardSubscriptionsNotSupported = 0xA2,
 ]);
 
-//@ id=table.v5.AuthReasonCode props=C01,C04,C10,C11,C20 kind=complete tier=quick
+//@ id=table.v5.AuthReasonCode props=C01,C03,C04,C06,C10,C11,C12,C20 kind=complete tier=quick
 code_table!(k_tbl_auth_reason, v5::AuthReasonCode, v5::AuthReasonCode::from_u8, "v5.AuthReasonCode", [
     Success = 0x00, ContinueAuthentication = 0x18, ReAuthentication = 0x19,
 ]);
 
-//@ id=table.v5.PubackReasonCode props=C01,C04,C10,C11,C20 kind=complete tier=quick
+//@ id=table.v5.PubackReasonCode props=C01,C03,C04,C06,C10,C11,C12,C20 kind=complete tier=quick
 code_table!(k_tbl_puback_reason, v5::PubackReasonCode, v5::PubackReasonCode::from_u8, "v5.PubackReasonCode", [
     Success = 0x00, NoMatchingSubscribers = 0x10, UnspecifiedError = 0x80, ImplementationSpecificError = 0x83,
     NotAuthorized = 0x87, TopicNameInvalid = 0x90, PacketIdentifierInUse = 0x91, QuotaExceeded = 0x97,
     PayloadFormatInvalid = 0x99,
 ]);
 
-//@ id=table.v5.PubrecReasonCode props=C01,C04,C10,C11,C20 kind=complete tier=quick
+//@ id=table.v5.PubrecReasonCode props=C01,C03,C04,C06,C10,C11,C12,C20 kind=complete tier=quick
 code_table!(k_tbl_pubrec_reason, v5::PubrecReasonCode, v5::PubrecReasonCode::from_u8, "v5.PubrecReasonCode", [
     Success = 0x00, NoMatchingSubscribers = 0x10, UnspecifiedError = 0x80, ImplementationSpecificError = 0x83,
     NotAuthorized = 0x87, TopicNameInvalid = 0x90, PacketIdentifierInUse = 0x91, QuotaExceeded = 0x97,
     PayloadFormatInvalid = 0x99,
 ]);
 
-//@ id=table.v5.PubrelReasonCode props=C01,C04,C10,C11,C20 kind=complete tier=quick
+//@ id=table.v5.PubrelReasonCode props=C01,C03,C04,C06,C10,C11,C12,C20 kind=complete tier=quick
 code_table!(k_tbl_pubrel_reason, v5::PubrelReasonCode, v5::PubrelReasonCode::from_u8, "v5.PubrelReasonCode", [
     Success = 0x00, PacketIdentifierNotFound = 0x92,
 ]);
 
-//@ id=table.v5.PubcompReasonCode props=C01,C04,C10,C11,C20 kind=complete tier=quick
+//@ id=table.v5.PubcompReasonCode props=C01,C03,C04,C06,C10,C11,C12,C20 kind=complete tier=quick
 code_table!(k_tbl_pubcomp_reason, v5::PubcompReasonCode, v5::PubcompReasonCode::from_u8, "v5.PubcompReasonCode", [
     Success = 0x00, PacketIdentifierNotFound = 0x92,
 ]);
 
-//@ id=table.v5.SubscribeReasonCode props=C01,C04,C10,C11,C20 kind=complete tier=quick
+//@ id=table.v5.SubscribeReasonCode props=C01,C03,C04,C06,C10,C11,C12,C20 kind=complete tier=quick
 code_table!(k_tbl_subscribe_reason, v5::SubscribeReasonCode, v5::SubscribeReasonCode::from_u8, "v5.SubscribeReasonCode", [
     GrantedQoS0 = 0x00, GrantedQoS1 = 0x01, GrantedQoS2 = 0x02, UnspecifiedError = 0x80,
     ImplementationSpecificError = 0x83, NotAuthorized = 0x87, TopicFilterInvalid = 0x8F, PacketIdentifierInUse = 0x91,
@@ -82,34 +82,34 @@ code_table!(k_tbl_subscribe_reason, v5::SubscribeReasonCode, v5::SubscribeReason
     WildcardSubscriptionsNotSupported = 0xA2,
 ]);
 
-//@ id=table.v5.UnsubscribeReasonCode props=C01,C04,C10,C11,C20 kind=complete tier=quick
+//@ id=table.v5.UnsubscribeReasonCode props=C01,C03,C04,C06,C10,C11,C12,C20 kind=complete tier=quick
 code_table!(k_tbl_unsubscribe_reason, v5::UnsubscribeReasonCode, v5::UnsubscribeReasonCode::from_u8, "v5.UnsubscribeReasonCode", [
     Success = 0x00, NoSubscriptionExisted = 0x11, UnspecifiedError = 0x80, ImplementationSpecificError = 0x83,
     NotAuthorized = 0x87, TopicFilterInvalid = 0x8F, PacketIdentifierInUse = 0x91,
 ]);
 
-//@ id=table.v5.RetainHandling props=C01,C04,C10,C11,C20 kind=complete tier=quick
+//@ id=table.v5.RetainHandling props=C01,C03,C04,C06,C10,C11,C12,C20 kind=complete tier=quick
 code_table!(k_tbl_retain_handling, v5::RetainHandling, v5::RetainHandling::from_u8, "v5.RetainHandling", [
     SendAtSubscribe = 0, SendAtSubscribeIfNotExist = 1, DoNotSend = 2,
 ]);
 
 fn ok_or_none<T, E>(r: Result<T, E>) -> Option<T> { match r { Ok(v) => Some(v), Err(_) => None } }
 
-//@ id=table.QoS props=C01,C04,C10,C11,C20 kind=complete tier=quick
+//@ id=table.QoS props=C01,C03,C04,C06,C10,C11,C12,C20 kind=complete tier=quick
 code_table!(k_tbl_qos, QoS, |b| ok_or_none(QoS::from_u8(b)), "QoS", [Level0 = 0, Level1 = 1, Level2 = 2]);
 
-//@ id=table.v3.ConnectReturnCode props=C01,C04,C10,C11,C20 kind=complete tier=quick
+//@ id=table.v3.ConnectReturnCode props=C01,C03,C04,C06,C10,C11,C12,C20 kind=complete tier=quick
 code_table!(k_tbl_v3_connect_return, v3::ConnectReturnCode, |b| ok_or_none(v3::ConnectReturnCode::from_u8(b)), "v3.ConnectReturnCode", [
     Accepted = 0, UnacceptableProtocolVersion = 1, IdentifierRejected = 2, ServerUnavailable = 3,
     BadUserNameOrPassword = 4, NotAuthorized = 5,
 ]);
 
-//@ id=table.v3.SubscribeReturnCode props=C01,C04,C10,C11,C20 kind=complete tier=quick
+//@ id=table.v3.SubscribeReturnCode props=C01,C03,C04,C06,C10,C11,C12,C20 kind=complete tier=quick
 code_table!(k_tbl_v3_subscribe_return, v3::SubscribeReturnCode, |b| ok_or_none(v3::SubscribeReturnCode::from_u8(b)), "v3.SubscribeReturnCode", [
     MaxLevel0 = 0x00, MaxLevel1 = 0x01, MaxLevel2 = 0x02, Failure = 0x80,
 ]);
 
-//@ id=table.v5.PropertyId props=C01,C04,C10,C11,C20 kind=complete tier=quick
+//@ id=table.v5.PropertyId props=C01,C03,C04,C06,C10,C11,C12,C20 kind=complete tier=quick
 code_table!(k_tbl_property_id, v5::PropertyId, |b| ok_or_none(v5::PropertyId::from_u8(b)), "v5.PropertyId", [
     PayloadFormatIndicator = 0x01, MessageExpiryInterval = 0x02, ContentType = 0x03, ResponseTopic = 0x08,
     CorrelationData = 0x09, SubscriptionIdentifier = 0x0B, SessionExpiryInterval = 0x11,
@@ -122,7 +122,7 @@ code_table!(k_tbl_property_id, v5::PropertyId, |b| ok_or_none(v5::PropertyId::fr
 ]);
 
 // ---- documented error variant + offending value for the Result-returning tables (C20)
-//@ id=table.errors props=C20 kind=complete tier=quick
+//@ id=table.errors props=C03,C06,C12,C20 kind=complete tier=quick
 #[kani::proof]
 fn k_tbl_error_variants() {
     let b: u8 = kani::any();
@@ -147,7 +147,7 @@ fn k_tbl_error_variants() {
 }
 
 // ---- From<QoS> for v3 SubscribeReturnCode
-//@ id=table.v3.qos-to-return-code props=C10 kind=complete tier=quick
+//@ id=table.v3.qos-to-return-code props=C03,C06,C10,C12 kind=complete tier=quick
 #[kani::proof]
 fn k_tbl_qos_to_return_code() {
     assert!(v3::SubscribeReturnCode::from(QoS::Level0) as u8 == 0, "C10:v3.SubscribeReturnCode.from(QoS0)");
@@ -185,7 +185,7 @@ fn ty5(t: v5::PacketType) -> Ty { use v5::PacketType as P; match t {
     P::Unsubscribe => Ty::Unsubscribe, P::Unsuback => Ty::Unsuback, P::Pingreq => Ty::Pingreq, P::Pingresp => Ty::Pingresp,
     P::Disconnect => Ty::Disconnect, P::Auth => Ty::Auth } }
 
-//@ id=header.v3.new_with props=C01,C04,C06,C10,C20 kind=complete tier=quick
+//@ id=header.v3.new_with props=C01,C03,C04,C05,C06,C07,C08,C10,C11,C20 kind=complete tier=quick
 #[kani::proof]
 fn k_header_v3_new_with() {
     let hd: u8 = kani::any();
@@ -202,7 +202,7 @@ fn k_header_v3_new_with() {
     }
 }
 
-//@ id=header.v5.new_with props=C01,C04,C06,C10,C20 kind=complete tier=quick
+//@ id=header.v5.new_with props=C01,C03,C04,C05,C06,C07,C08,C10,C11,C20 kind=complete tier=quick
 #[kani::proof]
 fn k_header_v5_new_with() {
     let hd: u8 = kani::any();
@@ -220,7 +220,7 @@ fn k_header_v5_new_with() {
 }
 
 // ---------------------------------------------------------------- v5 subscription options byte (MQTT 5.0 §3.8.3.1)
-//@ id=subopts.to_u8 props=C01,C10 kind=complete tier=quick
+//@ id=subopts.to_u8 props=C01,C09,C10,C11 kind=complete tier=quick
 #[kani::proof]
 fn k_subscription_options_to_u8() {
     let q: u8 = kani::any(); kani::assume(q <= 2);
@@ -239,7 +239,7 @@ fn k_subscription_options_to_u8() {
 }
 
 // ---------------------------------------------------------------- Protocol (name, level) table (MQTT 3.1 / 3.1.1 §3.1.2.1-2, 5.0 §3.1.2.1-2)
-//@ id=protocol.to_pair props=C01,C10,C13 kind=complete tier=quick
+//@ id=protocol.to_pair props=C01,C03,C06,C10,C11,C13 kind=complete tier=quick
 #[kani::proof]
 fn k_protocol_to_pair() {
     assert!(Protocol::V310.to_pair() == (&b"MQIsdp"[..], 3), "C10:Protocol.to_pair:V310");
@@ -257,7 +257,7 @@ pub(crate) fn stub_from_utf8(input: &[u8]) -> Result<&str, simdutf8::basic::Utf8
     }
 }
 
-//@ id=protocol.new props=C04,C13,C20 kind=bounded(name<=7bytes,ascii-or-one-invalid-byte) tier=quick
+//@ id=protocol.new props=C03,C04,C06,C11,C13,C20 kind=bounded(name<=7bytes,ascii-or-one-invalid-byte) tier=quick
 #[kani::proof]
 #[kani::unwind(9)]
 #[kani::stub(simdutf8::basic::from_utf8, stub_from_utf8)]
@@ -296,7 +296,7 @@ fn any_kind() -> io::ErrorKind {
         17 => UnexpectedEof, 18 => OutOfMemory, _ => Other }
 }
 
-//@ id=errors.conversions props=C07,C14 kind=complete tier=quick
+//@ id=errors.conversions props=C06,C07,C14,C20 kind=complete tier=quick
 #[kani::proof]
 fn k_error_conversions() {
     let k = any_kind();
@@ -318,7 +318,7 @@ fn k_error_conversions() {
 }
 
 // ---------------------------------------------------------------- VarBytes::as_ref and the fixed-size encoder arms (C09, C01, C02)
-//@ id=varbytes.as_ref props=C09 kind=complete tier=quick
+//@ id=varbytes.as_ref props=C01,C02,C09,C10 kind=complete tier=quick
 #[kani::proof]
 fn k_varbytes_as_ref() {
     let a: [u8; 2] = kani::any();
